@@ -1,6 +1,6 @@
 (* C11 -- Oversized and >4 GiB inputs are rejected cleanly; fed length reported exactly. *)
 From TlshV Require Import Model.Machine Gen.Tables Model.MLength Model.MHash Model.MGenerate Model.MFinalize
-  Proofs.LengthProofs Proofs.GenUpdate Proofs.GenLen Proofs.Select Proofs.Finalize Proofs.FinalizeChar Proofs.GenProps.
+  Proofs.LengthProofs Proofs.GenUpdate Proofs.GenLen Proofs.Select Proofs.Finalize Proofs.FinalizeChar Proofs.GenProps Proofs.GenTotal.
 
 (* for any amount of data in any chunking: every update returns normally (no slice, copy, index or
    checked `+=` fails), and no counter wraps: len <= 2^32-4, tail_len <= 4 *)
@@ -35,21 +35,7 @@ Print Assumptions C11_too_large_iff.
 Theorem C11_finalize_never_panics :
   forall sel gc v o data, sel_contract sel -> is_variant v ->
     finalize sel gc v o (fresh gc v data) <> Panic /\ finalize sel gc v o (fresh gc v data) <> UB.
-Proof.
-  intros sel gc v o data Hs Hv. rewrite finalize_reachable by (assumption || (exists data; reflexivity)).
-  unfold finalize_value.
-  destruct (gate_len _ _ _) as [[]|e| |] eqn:E1; cbn [bind]; try (split; discriminate).
-  - destruct (gate_q3 _ _) as [[[a b] c]|e| |] eqn:E2; cbn [bind]; try (split; discriminate).
-    + destruct (gate_half _ _ _) as [[]|e| |] eqn:E3; cbn [bind]; try (split; discriminate).
-      * unfold gate_half in E3. destruct (_ && _); discriminate.
-      * unfold gate_half in E3. destruct (_ && _); discriminate.
-    + destruct (kq _ _) as [[x y] z]. unfold gate_q3 in E2. destruct (z =? 0); [destruct (negb _)|]; discriminate.
-    + destruct (kq _ _) as [[x y] z]. unfold gate_q3 in E2. destruct (z =? 0); [destruct (negb _)|]; discriminate.
-  - unfold gate_len in E1. destruct (validity_is_err_on _ _); [|discriminate].
-    destruct (validity_new _ _); try discriminate; destruct (negb _); discriminate.
-  - unfold gate_len in E1. destruct (validity_is_err_on _ _); [|discriminate].
-    destruct (validity_new _ _); try discriminate; destruct (negb _); discriminate.
-Qed.
+Proof. exact finalize_never_panics_lemma. Qed.
 Print Assumptions C11_finalize_never_panics.
 
 (* with exactly MAX bytes the length code is 169 (on success the hash carries it: finalize_value) *)
